@@ -545,7 +545,15 @@ func (fr *Frame) exec(in ssa.Instruction) {
 		}
 		fr.rets = append(fr.rets, Exit{reach: fr.cur, st: fr.st.clone(), results: rs})
 		if fr.top {
+			for _, l := range fr.loops {
+				if fr.headSt != nil && fr.headSt[l.head] != nil && l.head.Dominates(in.Block()) {
+					fr.stepObligations(l, fr.headPhi[l.head], fr.cur, "step-exit", ex.prog.pos(in.Pos()), fr.localsSince(in, l))
+				}
+			}
 			ex.retCount++
+			if ex.fc != nil && ex.fc.LocalOnly {
+				break
+			}
 			if co := ex.addOblig("cover", fmt.Sprintf("return-%d", ex.retCount), ex.prog.pos(in.Pos()), mkNot(fr.cur), "this return statement is reachable"); co != nil {
 				co.ExpectSat = true
 			}
@@ -656,6 +664,7 @@ func (fr *Frame) unop(in *ssa.UnOp) {
 		}
 		v, facts := ex.freshVal(fr.st, t, "recv")
 		fr.assumeAll(facts)
+		fr.chanRecvT(fr.val(in.X), v, "true", in.X.Type().Underlying().(*types.Chan).Elem())
 		if in.CommaOk {
 			fr.vals[in] = Val{K: VTuple, Fs: []Val{v, vBool(ex.sc.Fresh("recvok", SBool))}}
 		} else {
@@ -923,6 +932,27 @@ func (fr *Frame) chanSendT(ch Val, v Val, cond string, et types.Type) {
 	}
 }
 
+// chanRecvT records a receive: the per-channel receive counter and the last value received
+// (the value itself is unconstrained; what is recorded is which value this routine took).
+func (fr *Frame) chanRecvT(ch Val, v Val, cond string, et types.Type) {
+	ex := fr.ex
+	rk := "CH.recv." + typeKey(et)
+	s := ex.get(fr.st, rk, SArr(SInt, SInt))
+	ex.set(fr.st, rk, SArr(SInt, SInt), mkIte(cond, mkStore(s, ch.T, mkApp("+", mkSelect(s, ch.T), "1")), s))
+	ls := leavesOf(et)
+	ts := flatten(v)
+	if len(ls) == len(ts) {
+		for i, l := range ls {
+			key := "CH.lastrecv." + typeKey(et) + "." + l.Path
+			srt := SArr(SInt, l.Sort)
+			ex.kinds[key] = l.Kind
+			ex.leafTyp[key] = l.Typ
+			a := ex.get(fr.st, key, srt)
+			ex.set(fr.st, key, srt, mkIte(cond, mkStore(a, ch.T, ts[i]), a))
+		}
+	}
+}
+
 func (fr *Frame) selectInstr(in *ssa.Select) {
 	ex := fr.ex
 	ex.abstr["select in "+fr.fn.Name()+": non-deterministic choice among cases"] = true
@@ -946,6 +976,7 @@ func (fr *Frame) selectInstr(in *ssa.Select) {
 			if len(facts) > 0 {
 				fr.assume(mkImp(mkEq(idx, fmt.Sprint(i)), mkAnd(facts...)))
 			}
+			fr.chanRecvT(ch, v, mkEq(idx, fmt.Sprint(i)), et)
 			fs = append(fs, v)
 		}
 	}
